@@ -205,11 +205,17 @@ impl OutputFormat for XBin {
         result.ice_mode = if use_ice { IceMode::Ice } else { IceMode::Blink };
 
         if has_custom_palette {
+            if o + XBIN_PALETTE_LENGTH > data.len() {
+                return Err(LoadingError::FileTooShort.into());
+            }
             result.palette = Palette::from_63(&data[o..(o + XBIN_PALETTE_LENGTH)]);
             o += XBIN_PALETTE_LENGTH;
         }
         if has_custom_font {
             let font_length = font_size as usize * 256;
+            if o + font_length * if extended_char_mode { 2 } else { 1 } > data.len() {
+                return Err(LoadingError::FileTooShort.into());
+            }
             result.clear_font_table();
             let mut font = BitFont::create_8("", 8, font_size, &data[o..(o + font_length)]);
             font.name = guess_font_name(&font);
